@@ -317,20 +317,21 @@ func (f *focusHandler) focusWidget(app *App, w Widget) error {
 		return nil
 	}
 
-	cmd, err := f.focused.HandleEvent(vaxis.FocusOut{}, TargetPhase)
+	outCmd, err := f.focused.HandleEvent(vaxis.FocusOut{}, TargetPhase)
 	if err != nil {
 		return err
 	}
-	app.handleCommand(cmd)
-	// Change the focused widget before we send the focus in event. If the
-	// newly focused widget changes focus again, we need to set this before
-	// the handleCommand call
+	// Change the focused widget and send the focus in event before we
+	// handle either command. If one of them changes focus again, the
+	// focused widget must already be the one which got the last focus in
+	// event, or focus out and focus in events would no longer pair up
 	f.focused = w
-	cmd, err = w.HandleEvent(vaxis.FocusIn{}, TargetPhase)
+	inCmd, err := w.HandleEvent(vaxis.FocusIn{}, TargetPhase)
+	app.handleCommand(outCmd)
 	if err != nil {
 		return err
 	}
-	app.handleCommand(cmd)
+	app.handleCommand(inCmd)
 
 	return nil
 }
